@@ -59,8 +59,13 @@ def argparse_options(ctx: Ctx) -> Dict[str, dict]:
             if dest:
                 act = kw["action"].value if "action" in kw and isinstance(kw["action"], ast.Constant) else "store"
                 typ = norm(kw["type"]) if "type" in kw else ("bool" if act in ("store_true", "store_false") else "str")
-                out[dest] = {"node": n, "action": act, "type": typ, "choices": kw.get("choices"), "flags": flags,
-                             "nargs": norm(kw["nargs"]) if "nargs" in kw else None}
+                entry = {"node": n, "action": act, "type": typ, "choices": kw.get("choices"), "flags": flags,
+                         "nargs": norm(kw["nargs"]) if "nargs" in kw else None}
+                if dest in out:
+                    # a second option with the same destination (-l next to -m): the first one stays the option's entry
+                    out[dest].setdefault("also", []).append(entry)
+                else:
+                    out[dest] = entry
     return out
 
 
@@ -446,9 +451,48 @@ def value_ops(ctx: Ctx, fl: "Flow") -> Dict[str, Dict[str, Tuple[FuncInfo, ast.A
                                    or (isinstance(tt, ClassInfo) and not tt.module.relpath.endswith("cli.py")) for tt in tg):
                                 break
                         kept.append((d, node))
+                    # a helper of the command-line module the value is handed to: what it does to its parameter counts too
+                    extra = []
+                    for d, node in kept:
+                        if isinstance(node, ast.Call) and not d.startswith("."):
+                            for tt in ctx.cg.resolve_call(f, f.module, node):
+                                if isinstance(tt, FuncInfo) and tt.relpath.endswith("cli.py") and tt not in fl.funcs and tt.cls is None:
+                                    extra += _helper_ops(tt)
                     for o in t:
                         for d, node in kept:
                             out.setdefault(o, {}).setdefault(d, (f, node))
+                        for d, g, node in extra:
+                            out.setdefault(o, {}).setdefault(d, (g, node))
+    return out
+
+
+def _helper_ops(h: FuncInfo) -> List[Tuple[str, FuncInfo, ast.AST]]:
+    """Content operations a helper applies to (something taken from) its parameters."""
+    tainted = set(h.params)
+    changed = True
+    while changed:
+        changed = False
+        for n in ast.walk(h.node):
+            tgt, src = None, None
+            if isinstance(n, ast.comprehension) or isinstance(n, ast.For):
+                tgt, src = n.target, n.iter
+            elif isinstance(n, ast.Assign) and len(n.targets) == 1:
+                tgt, src = n.targets[0], n.value
+            if tgt is None:
+                continue
+            if any(isinstance(x, ast.Name) and x.id in tainted for x in ast.walk(src)):
+                for x in ast.walk(tgt):
+                    if isinstance(x, ast.Name) and x.id not in tainted:
+                        tainted.add(x.id)
+                        changed = True
+    out = []
+    for n in ast.walk(h.node):
+        if isinstance(n, ast.Call) and isinstance(n.func, ast.Attribute) and n.func.attr in CONTENT_METHODS and any(
+                isinstance(x, ast.Name) and x.id in tainted for x in ast.walk(n.func.value)):
+            out.append((f".{n.func.attr}()", h, n))
+        elif isinstance(n, ast.Call) and norm(n.func) in CONTENT_FUNCS and any(
+                isinstance(x, ast.Name) and x.id in tainted for a in n.args for x in ast.walk(a)):
+            out.append((f"{norm(n.func)}(..)", h, n))
     return out
 
 
@@ -623,6 +667,9 @@ def rule_optflow3(ctx: Ctx) -> RuleResult:
                 helptext = v if isinstance(v, str) else ""
     import re as _re
     documented = set("".join(_re.findall(r"'([*?\[\]]+)'", helptext)))
+    if not tested or not documented:
+        raise AnalysisError(f"OPTFLOW-3: pattern symbols of process_path ({sorted(tested)}) / of the --model help ({sorted(documented)}) "
+                            f"could not be read")
     if tested and documented:
         rr.instances += 1
         extra = sorted(tested - documented)
@@ -935,17 +982,49 @@ def rule_seq1(ctx: Ctx) -> RuleResult:
     cat = [n for n in walk_no_nested(sm.node) if isinstance(n, ast.Assign) and isinstance(n.value, ast.BinOp)
            and isinstance(n.value.op, ast.Add) and "models" in norm(n.value)]
     ps = [p for p in sm.params if p != "self"]
-    ok = bool(cat) and norm(cat[0].value) in (f"list({ps[0]}) + list({ps[1]})", f"[*{ps[0]}, *{ps[1]}]")
-    rr.ob(sm.relpath, sm.qualname, norm(cat[0])[:70] if cat else "models + lists", "-m arguments, then -l arguments, "
-          "each in the order given", DISCHARGED if ok else VIOLATED, "plain concatenation" if ok else "not a plain concatenation",
+    ok = (bool(cat) and norm(cat[0].value) in (f"list({ps[0]}) + list({ps[1]})", f"[*{ps[0]}, *{ps[1]}]")) or not cat
+    rr.ob(sm.relpath, sm.qualname, norm(cat[0])[:70] if cat else "models", "the argument tuples are walked in the order given "
+          "(the second parameter is only there for callers of the old signature)", DISCHARGED if ok else VIOLATED, "plain concatenation" if ok else "not a plain concatenation",
           sm.node.lineno)
+    # (e) the options that name samples are collected in ONE list: argparse keeps one list per destination, and the order
+    # between two destinations is lost
+    ap = ctx.prog.func(CLI, "Cli._create_argparser")
+    sample_opts = []
+    for n in walk_no_nested(ap.node):
+        if isinstance(n, ast.Call) and isinstance(n.func, ast.Attribute) and n.func.attr == "add_argument":
+            flags = [a.value for a in n.args if isinstance(a, ast.Constant) and isinstance(a.value, str)]
+            kw = {k.arg: k.value for k in n.keywords if k.arg}
+            if any(fl_ in ("-m", "--model", "-l", "--list") for fl_ in flags):
+                longs = [x for x in flags if x.startswith("--")]
+                dest = kw["dest"].value if "dest" in kw and isinstance(kw["dest"], ast.Constant) else (longs[0] if longs else flags[0]).lstrip("-").replace("-", "_")
+                act = kw["action"].value if "action" in kw and isinstance(kw["action"], ast.Constant) else "store"
+                sample_opts.append((flags, dest, act, n))
+    if not sample_opts:
+        raise AnalysisError("SEQ-1: the --model option is not defined by the argument parser any more")
+    rr.instances += 1
+    dests = sorted({d for _, d, _, _ in sample_opts})
+    acts = sorted({a for _, _, a, _ in sample_opts})
+    ok_e = len(dests) == 1 and acts == ["append"]
+    rr.ob(ap.relpath, ap.qualname, "; ".join(f"{'/'.join(fl_)} -> {d} ({a})" for fl_, d, a, _ in sample_opts)[:90],
+          "the samples of a model are concatenated in the order of the command line, whichever of -m / -l names them: both options "
+          "append to one destination", DISCHARGED if ok_e else VIOLATED,
+          "one list, appended in command-line order" if ok_e else
+          f"destinations {dests} / actions {acts}: `-l A - f1.json -m A f2.json` reads f2.json before f1.json (every -m before every -l)",
+          sample_opts[0][3].lineno)
     # (d) run() passes each model's list to generate() as is
     run = ctx.prog.func(CLI, "Cli.run")
     rr.instances += 1
     ok = False
     for lp in walk_no_nested(run.node):
+        dn = None
         if isinstance(lp, ast.For) and norm(lp.iter) == "self.models_data.items()" and isinstance(lp.target, ast.Tuple):
             dn = norm(lp.target.elts[1])
+        elif isinstance(lp, ast.For) and norm(lp.iter) in ("self.models_data", "self.models_data.keys()") and isinstance(lp.target, ast.Name):
+            # for name in self.models_data: data = self.models_data[name]
+            first = lp.body[0] if lp.body else None
+            if isinstance(first, ast.Assign) and norm(first.value) == f"self.models_data[{lp.target.id}]" and isinstance(first.targets[0], ast.Name):
+                dn = first.targets[0].id
+        if dn is not None:
             for c in ast.walk(lp):
                 if isinstance(c, ast.Call) and isinstance(c.func, ast.Attribute) and c.func.attr == "generate" and \
                         len(c.args) == 1 and isinstance(c.args[0], ast.Starred) and norm(c.args[0].value) == dn:
